@@ -28,6 +28,10 @@ mod c09;
 #[cfg(kani)]
 mod c16;
 #[cfg(kani)]
+mod c17;
+#[cfg(kani)]
+mod c18;
+#[cfg(kani)]
 mod c19;
 #[cfg(kani)]
 mod c20;
